@@ -6,76 +6,76 @@ Open Scope Z_scope.
 Lemma find_filter_spec_parts :
   forall expr name o n,
     spec_parts expr = Some (name, o, n) ->
-    exists l, find_filter expr = Some (l, o) /\ name = trim l.
+    exists l r, find_filter expr = Some (l, r, o) /\ name = trim l /\ parse_index (trim r) = Some n.
 Proof.
   intros expr name o n H. unfold spec_parts in H. unfold find_filter.
   destruct (split_once (op_text OpLe) expr) as [[l r]|] eqn:E1.
-  - destruct (parse_index (trim r)) as [k|]; [|discriminate].
-    inversion H; subst. exists l. split; reflexivity.
+  - destruct (parse_index (trim r)) as [k|] eqn:Ek; [|discriminate].
+    inversion H; subst. exists l, r. auto.
   - destruct (split_once (op_text OpEq) expr) as [[l r]|] eqn:E2; [|discriminate].
-    destruct (parse_index (trim r)) as [k|]; [|discriminate].
-    inversion H; subst. exists l. split; reflexivity.
+    destruct (parse_index (trim r)) as [k|] eqn:Ek; [|discriminate].
+    inversion H; subst. exists l, r. auto.
 Qed.
 
-(* the code computes the property's predicate whenever the expression names parameter %0 *)
+(* a string of digits does not start with '+' *)
+Lemma digits_val_head :
+  forall c t acc v, digits_val acc (c :: t) = Some v -> (c =? 43) = false.
+Proof.
+  intros c t acc v H. cbn [digits_val] in H. unfold digit in H.
+  destruct ((48 <=? c) && (c <=? 57)) eqn:E; [|discriminate].
+  apply andb_prop in E. destruct E as [E1 E2]. apply Z.leb_le in E1. apply Z.eqb_neq. lia.
+Qed.
+
+(* the code selects the parameter the expression names *)
+Lemma param_of_spec :
+  forall params r n, parse_index (trim r) = Some n -> param_of params r = nth_error params n.
+Proof.
+  intros params r n H. unfold param_of. unfold parse_index in H.
+  destruct (trim r) as [|c ds]; [discriminate|].
+  destruct (c =? 37); [|discriminate].
+  destruct ds as [|d ds']; [discriminate|].
+  destruct (digits_val 0 (d :: ds')) as [v|] eqn:Ev; [|discriminate].
+  destruct (v <=? u64_max) eqn:Eb; [|discriminate].
+  inversion H; subst n.
+  unfold parse_usize. rewrite (digits_val_head _ _ _ _ Ev). rewrite Ev, Eb. reflexivity.
+Qed.
+
+(* THE evaluator theorem: for every supported expression, whatever parameter index it names *)
 Lemma eval_code_eq_spec :
-  forall f s b,
-    spec_index f = Some 0%nat ->
-    spec_eval f s = Some b ->
-    eval_code f s = Ok (of_bool b).
+  forall f s b, spec_eval f s = Some b -> eval_code f s = Ok (of_bool b).
 Proof.
-  intros f s b Hi He. unfold spec_index in Hi. unfold spec_eval in He. unfold eval_code.
+  intros f s b He. unfold spec_eval in He. unfold eval_code.
   destruct (spec_parts (f_expr f)) as [[[name o] n]|] eqn:Ep; [|discriminate].
-  inversion Hi; subst n.
-  destruct (find_filter_spec_parts _ _ _ _ Ep) as [l [Hf Hn]]. rewrite Hf. subst name.
+  destruct (find_filter_spec_parts _ _ _ _ Ep) as [l [r [Hf [Hn Hi]]]]. rewrite Hf. subst name.
+  rewrite (param_of_spec _ _ _ Hi).
   destruct (lookup (trim l) s) as [[z|x|k v]|]; try discriminate.
-  - destruct (f_params f) as [|p0 ps]; [discriminate|]. cbn [nth_error] in He.
-    destruct (parse_i32 p0); [|discriminate]. inversion He. reflexivity.
-  - destruct (f_params f) as [|p0 ps]; [discriminate|]. cbn [nth_error] in He.
+  - destruct (nth_error (f_params f) n) as [pv|]; [|discriminate].
+    destruct (parse_i32 pv); [|discriminate]. inversion He. reflexivity.
+  - destruct (nth_error (f_params f) n) as [pv|]; [|discriminate].
     inversion He. reflexivity.
 Qed.
 
-(* more generally: whenever the named parameter equals parameter 0 *)
-Lemma eval_code_eq_spec_same_param :
-  forall f s b n,
-    spec_index f = Some n ->
-    nth_error (f_params f) n = nth_error (f_params f) 0 ->
-    spec_eval f s = Some b ->
-    eval_code f s = Ok (of_bool b).
+(* whenever the property's evaluator is defined the index is within the parameters *)
+Lemma spec_eval_index_in_range :
+  forall f s b, spec_eval f s = Some b ->
+    exists n, spec_index f = Some n /\ (n < length (f_params f))%nat.
 Proof.
-  intros f s b n Hi Hp He. unfold spec_index in Hi. unfold spec_eval in He. unfold eval_code.
-  destruct (spec_parts (f_expr f)) as [[[name o] n']|] eqn:Ep; [|discriminate].
-  inversion Hi; subst n'.
-  destruct (find_filter_spec_parts _ _ _ _ Ep) as [l [Hf Hn]]. rewrite Hf. subst name.
-  rewrite Hp in He.
-  destruct (lookup (trim l) s) as [[z|x|k v]|]; try discriminate.
-  - destruct (f_params f) as [|p0 ps]; [discriminate|]. cbn [nth_error] in He.
-    destruct (parse_i32 p0); [|discriminate]. inversion He. reflexivity.
-  - destruct (f_params f) as [|p0 ps]; [discriminate|]. cbn [nth_error] in He.
-    inversion He. reflexivity.
+  intros f s b He. unfold spec_eval in He. unfold spec_index.
+  destruct (spec_parts (f_expr f)) as [[[name o] n]|]; [|discriminate].
+  exists n. split; [reflexivity|]. apply nth_error_Some.
+  destruct (lookup name s) as [[z|x|k v]|]; try discriminate;
+    destruct (nth_error (f_params f) n); try discriminate; discriminate.
 Qed.
 
-(* witness for class 2: `num = %1` with parameters ["3"; "9"] and num = 9 *)
+(* regression witness of the old parameter-index defect: `num = %1`, ["3";"9"], num = 9 passes *)
 Definition w_num : str := [110; 117; 109].
 Definition w_expr_eq1 : str := w_num ++ [32; 61; 32; 37; 49].   (* "num = %1" *)
 Definition w_expr_le0 : str := w_num ++ [32; 60; 61; 32; 37; 48].   (* "num <= %0" *)
 Definition w_sample (n : Z) : sample := [(w_num, VInt32 n)].
 
-Lemma param_index_ignored :
-  exists f s, spec_eval f s = Some true /\ eval_code f s = Ok Fail.
-Proof.
-  exists (mkCft w_expr_eq1 [[51]; [57]]), (w_sample 9). split; vm_compute; reflexivity.
-Qed.
-
 (* ------------------------------------------------------------------ the batch loop *)
 Definition add_all (cs : list change) (st : reader_st) : reader_st :=
   fold_left (fun st c => add_reader_change c st) cs st.
-
-Fixpoint take_while_pass (flt : option cft) (b : list change) : list change :=
-  match b with
-  | [] => []
-  | c :: t => if passes flt c then c :: take_while_pass flt t else []
-  end.
 
 Lemma decided_cases :
   forall flt c, decided flt c = true ->
@@ -86,25 +86,13 @@ Proof.
   destruct (classify flt c) as [[| |]|e|p]; try discriminate; auto.
 Qed.
 
-Lemma loop_coded :
+Lemma loop_filter :
   forall flt b st, forallb (decided flt) b = true ->
-    reader_loop flt b st = Ok (add_all (take_while_pass flt b) st).
+    reader_loop flt b st = Ok (add_all (filter (passes flt) b) st).
 Proof.
   intros flt b. induction b as [|c t IH]; intros st H; [reflexivity|].
   cbn [forallb] in H. apply andb_prop in H. destruct H as [Hc Ht].
-  unfold reader_loop in *. cbn [reader_loop_gen take_while_pass].
-  destruct (decided_cases _ _ Hc) as [[E P]|[E P]]; rewrite E, P.
-  - rewrite IH by exact Ht. reflexivity.
-  - reflexivity.
-Qed.
-
-Lemma loop_patched :
-  forall flt b st, forallb (decided flt) b = true ->
-    reader_loop_patched flt b st = Ok (add_all (filter (passes flt) b) st).
-Proof.
-  intros flt b. induction b as [|c t IH]; intros st H; [reflexivity|].
-  cbn [forallb] in H. apply andb_prop in H. destruct H as [Hc Ht].
-  unfold reader_loop_patched in *. cbn [reader_loop_gen filter].
+  cbn [reader_loop filter].
   destruct (decided_cases _ _ Hc) as [[E P]|[E P]]; rewrite E, P.
   - rewrite IH by exact Ht. reflexivity.
   - rewrite IH by exact Ht. reflexivity.
@@ -113,25 +101,13 @@ Qed.
 Lemma add_all_app : forall a b st, add_all (a ++ b) st = add_all b (add_all a st).
 Proof. intros. unfold add_all. apply fold_left_app. Qed.
 
-Lemma run_coded :
+Lemma run_filter :
   forall flt groups st, forallb (forallb (decided flt)) groups = true ->
-    run_reader flt groups st = Ok (add_all (concat (map (take_while_pass flt) groups)) st).
+    run_reader flt groups st = Ok (add_all (filter (passes flt) (concat groups)) st).
 Proof.
   intros flt groups. induction groups as [|g t IH]; intros st H; [reflexivity|].
   cbn [forallb] in H. apply andb_prop in H. destruct H as [Hg Ht].
-  unfold run_reader in *. cbn [run_reader_gen map concat].
-  fold (reader_loop flt g st). rewrite loop_coded by exact Hg. cbn [bind].
-  rewrite IH by exact Ht. rewrite add_all_app. reflexivity.
-Qed.
-
-Lemma run_patched :
-  forall flt groups st, forallb (forallb (decided flt)) groups = true ->
-    run_reader_patched flt groups st = Ok (add_all (filter (passes flt) (concat groups)) st).
-Proof.
-  intros flt groups. induction groups as [|g t IH]; intros st H; [reflexivity|].
-  cbn [forallb] in H. apply andb_prop in H. destruct H as [Hg Ht].
-  unfold run_reader_patched in *. cbn [run_reader_gen concat].
-  fold (reader_loop_patched flt g st). rewrite loop_patched by exact Hg. cbn [bind].
+  cbn [run_reader concat]. rewrite loop_filter by exact Hg. cbn [bind].
   rewrite IH by exact Ht. rewrite filter_app, add_all_app. reflexivity.
 Qed.
 
@@ -154,138 +130,29 @@ Proof.
     rewrite presented_app. cbn [presented]. rewrite <- app_assoc. reflexivity.
 Qed.
 
-(* ------------------------------------------------------------------ lossy batches *)
-Lemma not_lossy_take_eq_filter :
-  forall flt b, lossy_batch flt b = false -> take_while_pass flt b = filter (passes flt) b.
-Proof.
-  intros flt b. unfold lossy_batch. induction b as [|c t IH]; intros H; [reflexivity|].
-  cbn [drop_while_pass take_while_pass filter] in *.
-  destruct (passes flt c) eqn:P.
-  - rewrite IH by exact H. reflexivity.
-  - cbn [existsb] in H. rewrite P in H. cbn [orb] in H.
-    clear IH. induction t as [|d u IHu]; [reflexivity|].
-    cbn [existsb] in H. apply orb_false_iff in H. destruct H as [Hd Hu].
-    cbn [filter]. rewrite Hd. apply IHu. exact Hu.
-Qed.
-
-Lemma take_le_filter :
-  forall flt b, (length (take_while_pass flt b) <= length (filter (passes flt) b))%nat.
-Proof.
-  intros flt b. induction b as [|c t IH]; [apply le_n|].
-  cbn [take_while_pass filter]. destruct (passes flt c); cbn [length]; lia.
-Qed.
-
-Lemma existsb_filter_pos :
-  forall (A : Type) (p : A -> bool) l, existsb p l = true -> (0 < length (filter p l))%nat.
-Proof.
-  intros A p l. induction l as [|x t IH]; intros H; [discriminate|].
-  cbn [existsb] in H. cbn [filter]. destruct (p x); cbn [length]; [lia|].
-  apply IH. exact H.
-Qed.
-
-Lemma lossy_take_lt_filter :
-  forall flt b, lossy_batch flt b = true ->
-    (length (take_while_pass flt b) < length (filter (passes flt) b))%nat.
-Proof.
-  intros flt b. unfold lossy_batch. induction b as [|c t IH]; intros H; [discriminate|].
-  cbn [drop_while_pass take_while_pass filter] in *.
-  destruct (passes flt c) eqn:P.
-  - cbn [length]. apply IH in H. lia.
-  - cbn [length]. cbn [existsb] in H. rewrite P in H. cbn [orb] in H.
-    apply existsb_filter_pos. exact H.
-Qed.
-
-Lemma not_lossy_groups :
-  forall flt groups, lossy flt groups = false ->
-    concat (map (take_while_pass flt) groups) = filter (passes flt) (concat groups).
-Proof.
-  intros flt groups. unfold lossy. induction groups as [|g t IH]; intros H; [reflexivity|].
-  cbn [existsb] in H. apply orb_false_iff in H. destruct H as [Hg Ht].
-  cbn [map concat]. rewrite filter_app, IH by exact Ht.
-  rewrite not_lossy_take_eq_filter by exact Hg. reflexivity.
-Qed.
-
-Lemma groups_le :
-  forall flt groups,
-    (length (concat (map (take_while_pass flt) groups)) <= length (filter (passes flt) (concat groups)))%nat.
-Proof.
-  intros flt groups. induction groups as [|g t IH]; [apply le_n|].
-  cbn [map concat]. rewrite filter_app, !app_length.
-  pose proof (take_le_filter flt g). lia.
-Qed.
-
-Lemma lossy_groups_lt :
-  forall flt groups, lossy flt groups = true ->
-    (length (concat (map (take_while_pass flt) groups)) < length (filter (passes flt) (concat groups)))%nat.
-Proof.
-  intros flt groups. unfold lossy. induction groups as [|g t IH]; intros H; [discriminate|].
-  cbn [existsb] in H. cbn [map concat]. rewrite filter_app, !app_length.
-  apply orb_true_iff in H. destruct H as [Hg|Ht].
-  - pose proof (lossy_take_lt_filter flt g Hg). pose proof (groups_le flt t). lia.
-  - pose proof (IH Ht). pose proof (take_le_filter flt g). lia.
-Qed.
-
-(* sublists (order-preserving selections) *)
-Inductive sublist {A : Type} : list A -> list A -> Prop :=
-| sub_nil : forall l, sublist [] l
-| sub_keep : forall x a b, sublist a b -> sublist (x :: a) (x :: b)
-| sub_skip : forall x a b, sublist a b -> sublist a (x :: b).
-
-Lemma sublist_refl : forall (A : Type) (l : list A), sublist l l.
-Proof. induction l; constructor; assumption. Qed.
-
-Lemma sublist_app :
-  forall (A : Type) (a b c d : list A), sublist a b -> sublist c d -> sublist (a ++ c) (b ++ d).
-Proof.
-  intros A a b c d H. revert c d. induction H; intros c d Hcd; cbn [app].
-  - induction l as [|y l IHl]; cbn [app]; [exact Hcd|]. apply sub_skip. exact IHl.
-  - apply sub_keep. apply IHsublist. exact Hcd.
-  - apply sub_skip. apply IHsublist. exact Hcd.
-Qed.
-
-Lemma take_sublist_filter :
-  forall flt b, sublist (take_while_pass flt b) (filter (passes flt) b).
-Proof.
-  intros flt b. induction b as [|c t IH]; [constructor|].
-  cbn [take_while_pass filter]. destruct (passes flt c); [apply sub_keep; exact IH|constructor].
-Qed.
-
-Lemma groups_sublist :
-  forall flt groups,
-    sublist (concat (map (take_while_pass flt) groups)) (filter (passes flt) (concat groups)).
-Proof.
-  intros flt groups. induction groups as [|g t IH]; [constructor|].
-  cbn [map concat]. rewrite filter_app. apply sublist_app; [apply take_sublist_filter|exact IH].
-Qed.
-
-Lemma sublist_map :
-  forall (A B : Type) (f : A -> B) a b, sublist a b -> sublist (map f a) (map f b).
-Proof. intros A B f a b H. induction H; cbn [map]; constructor; assumption. Qed.
-
 (* ------------------------------------------------------------------ domain plumbing *)
 Definition in_domain (f : cft) (c : change) : bool := ch_alive c && spec_defined f c.
 
 Lemma in_domain_classify :
-  forall f c, spec_index f = Some 0%nat -> in_domain f c = true ->
-    classify (Some f) c = Ok (of_bool (spec_true f c)).
+  forall f c, in_domain f c = true -> classify (Some f) c = Ok (of_bool (spec_true f c)).
 Proof.
-  intros f c Hi H. unfold in_domain in H. apply andb_prop in H. destruct H as [Ha Hd].
+  intros f c H. unfold in_domain in H. apply andb_prop in H. destruct H as [Ha Hd].
   unfold classify. rewrite Ha. unfold spec_defined in Hd. unfold spec_true.
   destruct (spec_eval f (ch_data c)) as [b|] eqn:E; [|discriminate].
-  rewrite (eval_code_eq_spec _ _ _ Hi E). destruct b; reflexivity.
+  rewrite (eval_code_eq_spec _ _ _ E). destruct b; reflexivity.
 Qed.
 
 Lemma in_domain_decided :
-  forall f c, spec_index f = Some 0%nat -> in_domain f c = true -> decided (Some f) c = true.
+  forall f c, in_domain f c = true -> decided (Some f) c = true.
 Proof.
-  intros f c Hi H. unfold decided. rewrite (in_domain_classify _ _ Hi H).
+  intros f c H. unfold decided. rewrite (in_domain_classify _ _ H).
   destruct (spec_true f c); reflexivity.
 Qed.
 
 Lemma in_domain_passes :
-  forall f c, spec_index f = Some 0%nat -> in_domain f c = true -> passes (Some f) c = spec_true f c.
+  forall f c, in_domain f c = true -> passes (Some f) c = spec_true f c.
 Proof.
-  intros f c Hi H. unfold passes. rewrite (in_domain_classify _ _ Hi H).
+  intros f c H. unfold passes. rewrite (in_domain_classify _ _ H).
   destruct (spec_true f c); reflexivity.
 Qed.
 
@@ -323,122 +190,29 @@ Proof.
   cbn [filter]. destruct (q x); cbn [forallb]; [rewrite Hx|]; apply IH; exact Ht.
 Qed.
 
-Lemma lossy_ext :
-  forall f groups, spec_index f = Some 0%nat ->
+Lemma domain_ext :
+  forall f groups,
     forallb (forallb (in_domain f)) groups = true ->
     forallb (forallb ch_alive) groups = true /\
     forallb (forallb (decided (Some f))) groups = true.
 Proof.
-  intros f groups Hi H. split.
+  intros f groups H. split.
   - eapply forallb_impl; [|exact H]. intros g Hg. eapply forallb_impl; [|exact Hg].
     intros c Hc. unfold in_domain in Hc. apply andb_prop in Hc. tauto.
   - eapply forallb_impl; [|exact H]. intros g Hg. eapply forallb_impl; [|exact Hg].
     intros c Hc. apply in_domain_decided; assumption.
 Qed.
 
-Lemma alive_take_groups :
-  forall flt groups, forallb (forallb ch_alive) groups = true ->
-    forallb ch_alive (concat (map (take_while_pass flt) groups)) = true.
-Proof.
-  intros flt groups. induction groups as [|g t IH]; intros H; [reflexivity|].
-  cbn [forallb] in H. apply andb_prop in H. destruct H as [Hg Ht].
-  cbn [map concat]. rewrite forallb_app, (IH Ht), andb_true_r.
-  clear IH Ht. induction g as [|c u IHu]; [reflexivity|].
-  cbn [forallb] in Hg. apply andb_prop in Hg. destruct Hg as [Hc Hu].
-  cbn [take_while_pass]. destruct (passes flt c); [|reflexivity].
-  cbn [forallb]. rewrite Hc, (IHu Hu). reflexivity.
-Qed.
-
 (* ------------------------------------------------------------------ main theorems *)
-(* the code as written: exact unless some batch is lossy *)
-Theorem presented_eq_filter_batch_unless_lossy :
+(* THE PROPERTY: every supported filter (any parameter index), every list of samples, EVERY grouping *)
+Theorem presented_eq_filter_batch :
   forall f groups,
-    spec_index f = Some 0%nat ->
     forallb (forallb (in_domain f)) groups = true ->
-    lossy (Some f) groups = false ->
     exists st, run_reader (Some f) groups reader_init = Ok st /\
       presented (r_samples st) = map ch_data (filter (spec_true f) (concat groups)).
 Proof.
-  intros f groups Hi Hd Hl. destruct (lossy_ext _ _ Hi Hd) as [Ha Hdec].
-  eexists. split; [apply run_coded; exact Hdec|].
-  rewrite presented_add_all by (apply alive_take_groups; exact Ha).
-  cbn [reader_init r_samples presented app].
-  rewrite not_lossy_groups by exact Hl. f_equal.
-  eapply filter_ext_forallb; [|apply forallb_concat; exact Hd].
-  intros c Hc. apply in_domain_passes; assumption.
-Qed.
-
-(* and strictly fewer samples are presented as soon as one batch is lossy: the class is exact *)
-Theorem lossy_loses_a_passing_sample :
-  forall f groups,
-    spec_index f = Some 0%nat ->
-    forallb (forallb (in_domain f)) groups = true ->
-    lossy (Some f) groups = true ->
-    exists st, run_reader (Some f) groups reader_init = Ok st /\
-      (length (presented (r_samples st)) < length (filter (spec_true f) (concat groups)))%nat.
-Proof.
-  intros f groups Hi Hd Hl. destruct (lossy_ext _ _ Hi Hd) as [Ha Hdec].
-  eexists. split; [apply run_coded; exact Hdec|].
-  rewrite presented_add_all by (apply alive_take_groups; exact Ha).
-  cbn [reader_init r_samples presented app]. rewrite map_length.
-  replace (filter (spec_true f) (concat groups)) with (filter (passes (Some f)) (concat groups)).
-  - apply lossy_groups_lt. exact Hl.
-  - eapply filter_ext_forallb; [|apply forallb_concat; exact Hd].
-    intros c Hc. apply in_domain_passes; assumption.
-Qed.
-
-(* whatever the grouping: only passing samples are presented, each at most once, in arrival order *)
-Theorem presented_sublist_of_passing :
-  forall f groups,
-    spec_index f = Some 0%nat ->
-    forallb (forallb (in_domain f)) groups = true ->
-    exists st, run_reader (Some f) groups reader_init = Ok st /\
-      sublist (presented (r_samples st)) (map ch_data (filter (spec_true f) (concat groups))).
-Proof.
-  intros f groups Hi Hd. destruct (lossy_ext _ _ Hi Hd) as [Ha Hdec].
-  eexists. split; [apply run_coded; exact Hdec|].
-  rewrite presented_add_all by (apply alive_take_groups; exact Ha).
-  cbn [reader_init r_samples presented app]. apply sublist_map.
-  replace (filter (spec_true f) (concat groups)) with (filter (passes (Some f)) (concat groups)).
-  - apply groups_sublist.
-  - eapply filter_ext_forallb; [|apply forallb_concat; exact Hd].
-    intros c Hc. apply in_domain_passes; assumption.
-Qed.
-
-(* one sample per worker step (what dust-dds writers produce: one DATA per datagram) is never lossy *)
-Lemma small_batch_not_lossy :
-  forall flt b, (length b <= 1)%nat -> lossy_batch flt b = false.
-Proof.
-  intros flt b H. destruct b as [|c [|d t]]; [reflexivity| |cbn [length] in H; lia].
-  unfold lossy_batch. cbn [drop_while_pass]. destruct (passes flt c) eqn:P; [reflexivity|].
-  cbn [existsb]. rewrite P. reflexivity.
-Qed.
-
-Theorem presented_eq_filter_one_per_step :
-  forall f groups,
-    spec_index f = Some 0%nat ->
-    forallb (forallb (in_domain f)) groups = true ->
-    forallb (fun g => (length g <=? 1)%nat) groups = true ->
-    exists st, run_reader (Some f) groups reader_init = Ok st /\
-      presented (r_samples st) = map ch_data (filter (spec_true f) (concat groups)).
-Proof.
-  intros f groups Hi Hd Hs. apply presented_eq_filter_batch_unless_lossy; try assumption.
-  unfold lossy. clear Hd. induction groups as [|g t IH]; [reflexivity|].
-  cbn [forallb] in Hs. apply andb_prop in Hs. destruct Hs as [Hg Ht].
-  cbn [existsb]. rewrite (IH Ht), orb_false_r.
-  apply small_batch_not_lossy. apply Nat.leb_le. exact Hg.
-Qed.
-
-(* the patched loop (`continue` instead of `continue 'data_readers`): exact for EVERY grouping *)
-Theorem presented_eq_filter_batch_patched :
-  forall f groups,
-    spec_index f = Some 0%nat ->
-    forallb (forallb (in_domain f)) groups = true ->
-    exists st, run_reader_patched (Some f) groups reader_init = Ok st /\
-      presented (r_samples st) = map ch_data (filter (spec_true f) (concat groups)).
-Proof.
-  intros f groups Hi Hd. destruct (lossy_ext _ _ Hi Hd) as [Ha Hdec].
-  eexists. split; [apply run_patched; exact Hdec|].
+  intros f groups Hd. destruct (domain_ext _ _ Hd) as [Ha Hdec].
+  eexists. split; [apply run_filter; exact Hdec|].
   assert (Hal : forallb ch_alive (filter (passes (Some f)) (concat groups)) = true).
   { apply forallb_filter_sub. apply forallb_concat. exact Ha. }
   rewrite presented_add_all by exact Hal.
@@ -447,23 +221,27 @@ Proof.
   intros c Hc. apply in_domain_passes; assumption.
 Qed.
 
-(* the refutation of the unconditional statement on the code as written: batch [fail; pass] *)
+(* the grouping is irrelevant: any two groupings of the same samples present the same *)
+Theorem grouping_irrelevant :
+  forall f g1 g2,
+    concat g1 = concat g2 ->
+    forallb (forallb (in_domain f)) g1 = true ->
+    forallb (forallb (in_domain f)) g2 = true ->
+    exists s1 s2, run_reader (Some f) g1 reader_init = Ok s1 /\
+                  run_reader (Some f) g2 reader_init = Ok s2 /\
+                  presented (r_samples s1) = presented (r_samples s2).
+Proof.
+  intros f g1 g2 Hc H1 H2.
+  destruct (presented_eq_filter_batch f g1 H1) as [s1 [R1 P1]].
+  destruct (presented_eq_filter_batch f g2 H2) as [s2 [R2 P2]].
+  exists s1, s2. repeat split; try assumption. rewrite P1, P2, Hc. reflexivity.
+Qed.
+
+(* regression witnesses of the two repaired defects *)
 Definition w_flt : cft := mkCft w_expr_le0 [[53]].   (* num <= %0, ["5"] *)
 Definition w_ch (n : Z) : change := mkCh true 1 (w_sample n).
 
-Theorem presented_eq_filter_batch_refuted :
-  exists f groups,
-    spec_index f = Some 0%nat /\
-    forallb (forallb (in_domain f)) groups = true /\
-    exists st, run_reader (Some f) groups reader_init = Ok st /\
-      presented (r_samples st) <> map ch_data (filter (spec_true f) (concat groups)).
-Proof.
-  exists w_flt, [[w_ch 9; w_ch 4]]. split; [vm_compute; reflexivity|].
-  split; [vm_compute; reflexivity|].
-  eexists. split; [vm_compute; reflexivity|]. vm_compute. discriminate.
-Qed.
-
-(* a reader on the plain topic is not affected by anything above *)
+(* a reader on the plain topic presents everything *)
 Theorem plain_reader_presents_all :
   forall groups, forallb (forallb ch_alive) groups = true ->
     exists st, run_reader None groups reader_init = Ok st /\
@@ -472,15 +250,12 @@ Proof.
   intros groups Ha.
   assert (Hdec : forallb (forallb (decided None)) groups = true).
   { eapply forallb_impl; [|exact Ha]. intros g Hg. eapply forallb_impl; [|exact Hg]. reflexivity. }
-  assert (Hl : lossy None groups = false).
-  { clear. unfold lossy. induction groups as [|g t IH]; [reflexivity|].
-    cbn [existsb]. rewrite IH, orb_false_r. unfold lossy_batch.
-    induction g as [|c u IHu]; [reflexivity|]. cbn [drop_while_pass]. exact IHu. }
-  eexists. split; [apply run_coded; exact Hdec|].
-  rewrite presented_add_all by (apply alive_take_groups; exact Ha).
-  cbn [reader_init r_samples presented app]. rewrite not_lossy_groups by exact Hl.
-  f_equal. clear. induction (concat groups) as [|c t IH]; [reflexivity|].
-  cbn [filter]. change (passes None c) with true. cbn iota. rewrite IH. reflexivity.
+  eexists. split; [apply run_filter; exact Hdec|].
+  assert (Hf : filter (passes None) (concat groups) = concat groups).
+  { clear. induction (concat groups) as [|c t IH]; [reflexivity|].
+    cbn [filter]. change (passes None c) with true. cbn iota. rewrite IH. reflexivity. }
+  rewrite Hf. rewrite presented_add_all by (apply forallb_concat; exact Ha).
+  reflexivity.
 Qed.
 
 (* the two oracles used by the correspondence file decide what they say *)
